@@ -80,6 +80,8 @@ def sly_names(rhs):
 
 def run(ctx, rep):
     ix, T = ctx.ix, ctx.typer
+    from .common import check_context_bookkeeping_keys
+    check_context_bookkeeping_keys(ctx, rep, "C02.7")
     from .common import check_falsy_zero
     check_falsy_zero(ctx, rep, "C02.6", ['jaqalpaq.parser.slyparse', 'jaqalpaq.core.circuitbuilder'], floor_positions=10)
     for a in SLY_ASSUMPTIONS:
@@ -265,6 +267,7 @@ def run(ctx, rep):
         except Unsupported as ex:
             autom[r.name] = None
             rep.undecided("C02.4", f"{lcons}:{r.name}", f"pattern outside the supported fragment: {ex}")
+    token_shadowing(ctx, rep, lx, autom)
     line = [r for r in lx.rules if autom.get(r.name) and autom[r.name][0].accepts("//x")]
     block = [r for r in lx.rules if autom.get(r.name) and autom[r.name][0].accepts("/**/")]
     if not line:
@@ -362,3 +365,30 @@ def run(ctx, rep):
             rep.violation("C02.5", cons + ":raises", "the error handler can return normally: sly then resynchronises and a syntax error is silently skipped", err.loc())
         else:
             rep.ok("C02.5", cons + ":raises", "the error handler always raises", err.loc())
+
+
+def token_shadowing(ctx, rep, lx, autom):
+    """C02.8: sly joins the token patterns into one alternation in definition order, and Python's alternation takes the
+    first alternative that matches *some* prefix.  A string of a later token whose prefix is matched by an earlier
+    rule can therefore never be lexed as that later token."""
+    rep.rule("C02.8", "no token's language is shadowed by an earlier lexer rule (the earlier rule would match a prefix and win)", floor=10)
+    lcons = "parser.slyparse:" + lx.cls.name
+    order = list(lx.rules)
+    for i, r in enumerate(order):
+        if not autom.get(r.name):
+            continue
+        shadow = None
+        for e in order[:i]:
+            if not autom.get(e.name):
+                continue
+            w = autom[r.name][0].nonempty_prefixes_matching(autom[e.name][0])
+            if w is not None:
+                shadow = (e, w)
+                break
+        cons = f"{lcons}:{'ignore_' if r.ignored else ''}{r.name}:not-shadowed"
+        loc = f"{lx.cls.path}:{r.lineno}"
+        if shadow is None:
+            rep.ok("C02.8", cons, "no earlier rule matches a prefix of any of its strings", loc)
+        else:
+            e, w = shadow
+            rep.violation("C02.8", cons, f"{w!r} is in the language of {r.name}, but the earlier rule {e.name} matches a prefix of it and wins: the text is split into other tokens and rejected (or mis-parsed)", loc, witness=w)
